@@ -252,6 +252,9 @@ type c05Case struct {
 	ValidateJWK string    `json:"validate_jwk"` // default true false
 	IDFrom      string    `json:"id_from"`      // "" = default (sub)
 	Remote      string    `json:"remote"`
+	Metadata    string    `json:"metadata,omitempty"`  // "" (jwks_endpoint) | verified | unverified (metadata_endpoint)
+	MdID        int       `json:"md_id,omitempty"`     // path component of the metadata document
+	MdIssuer    string    `json:"md_issuer,omitempty"` // issuer the metadata document states
 	Keys        []c05Key  `json:"keys"`
 	Cred        string    `json:"cred"` // none token
 	Source      string    `json:"source"`
@@ -373,6 +376,10 @@ func c05Effective(c *c05Case) c05Exp {
 
 	if e.LeewayMS == 0 {
 		e.LeewayMS = 10000
+	}
+
+	if len(e.Issuers) == 0 {
+		e.Issuers = []string{c.MdIssuer}
 	}
 
 	return e
@@ -598,6 +605,22 @@ func (e *c05Env) gen(r *vf.Rand) c05Case {
 		c.Remote = vf.Pick(r, []string{"RDown", "RStatus", "RGarbage"})
 	}
 
+	if r.Chance(18) {
+		// metadata_endpoint instead of jwks_endpoint: the document's issuer is trusted when no issuers are configured
+		c.MdID = r.Intn(1 << 30)
+		c.Metadata = "verified"
+		c.MdIssuer = fmt.Sprintf("%s/md/%d", e.srv.URL, c.MdID)
+
+		if r.Chance(40) {
+			c.Metadata = "unverified"
+			c.MdIssuer = vf.Pick(r, append([]string{c.MdIssuer, ""}, c05Issuers...))
+		}
+
+		if r.Chance(60) {
+			c.Proto.Issuers = nil
+		}
+	}
+
 	eff := c05Effective(&c)
 	c.Keys = e.genKeys(r, eff)
 
@@ -659,6 +682,12 @@ func (e *c05Env) gen(r *vf.Rand) c05Case {
 	case 0:
 		t.Scp = c05GenStrs(r, c05Scopes, want, 10)
 		t.Scope = c05GenStrs(r, c05Scopes, nil, 70)
+
+		if r.Chance(20) {
+			// an empty `scp` (string "" = [""], array [] = nothing) next to a `scope` that would do
+			t.Scp = c05Strs{Form: vf.Pick(r, []string{"str", "arr"})}
+			t.Scope = c05GenStrs(r, c05Scopes, want, 0)
+		}
 	case 1:
 		t.Scp = c05GenStrs(r, c05Scopes, nil, 85)
 		t.Scope = c05GenStrs(r, c05Scopes, want, 10)
@@ -1430,6 +1459,19 @@ func (e *c05Env) run(idx int, c *c05Case) (obs c05Obs) {
 		"cache_ttl":     "0s",
 	}
 
+	if c.Metadata != "" {
+		mdPath := fmt.Sprintf("/md/%d/.well-known/oauth-authorization-server", c.MdID)
+		doc, _ := json.Marshal(map[string]any{"issuer": c.MdIssuer, "jwks_uri": base})
+		e.bodies.Store(mdPath, doc)
+
+		defer e.bodies.Delete(mdPath)
+
+		delete(conf, "jwks_endpoint")
+		conf["metadata_endpoint"] = map[string]any{
+			"url": e.srv.URL + mdPath, "disable_issuer_identifier_verification": c.Metadata == "unverified",
+		}
+	}
+
 	switch c.ValidateJWK {
 	case "true":
 		conf["validate_jwk"] = true
@@ -1643,7 +1685,7 @@ func c05Coq(c c05Case, o c05Obs) string {
 		idf = "sub"
 	}
 
-	cf := vf.CoqApp("cfg", c05CoqExp(c.Proto), rule, `""`, vf.CoqBool(c.ValidateJWK != "false"), vf.CoqStr(idf), c.Remote)
+	cf := vf.CoqApp("cfg", c05CoqExp(c.Proto), rule, vf.CoqStr(c.MdIssuer), vf.CoqBool(c.ValidateJWK != "false"), vf.CoqStr(idf), c.Remote)
 
 	var obs string
 
@@ -1662,7 +1704,7 @@ func c05Coq(c c05Case, o c05Obs) string {
 // ---- histogram, non-triviality -------------------------------------------------------------------
 
 func c05Tags(c c05Case, o c05Obs) []string {
-	tags := []string{"site:" + o.Site, "remote:" + c.Remote, fmt.Sprintf("keys:%d", len(c.Keys)),
+	tags := []string{"site:" + o.Site, "remote:" + c.Remote, "endpoint:" + c05If(c.Metadata == "", "jwks", "metadata-"+c.Metadata), fmt.Sprintf("keys:%d", len(c.Keys)),
 		"rule-override:" + c05If(c.Rule != nil, "yes", "no"), "validate_jwk:" + c.ValidateJWK}
 
 	if o.Err != "" {
@@ -1755,6 +1797,10 @@ func c05Nontrivial(o c05Obs) bool {
 func c05KeyOf(c c05Case) string {
 	cp := c
 
+	if strings.HasPrefix(c.MdIssuer, "http://127.0.0.1:") {
+		cp.MdIssuer = "derived-from-url" // the port differs from run to run
+	}
+
 	if c.Tok != nil {
 		t := *c.Tok
 		t.Exp.Value, t.Nbf.Value, t.Iat.Value = 0, 0, 0
@@ -1835,6 +1881,34 @@ func c05Corpus() []c05Case {
 		}),
 		with(func(c *c05Case) { c.Rule = &c05Exp{LeewayMS: 1500}; c.Tok.Exp = c05Date{Kind: "rel", V: -1} }),
 		with(func(c *c05Case) { c.Tok.Fields = nil }),
+		// claim decoding edges: an empty `scp` string is the one-element list [""] and hides `scope`
+		with(func(c *c05Case) {
+			c.Proto.Scopes = &c05Matcher{Form: "exact", Values: []string{"read"}}
+			c.Tok.Scp = c05Strs{Form: "str"}
+			c.Tok.Scope = c05Strs{Form: "arr", Vals: []string{"read"}}
+		}),
+		with(func(c *c05Case) {
+			c.Proto.Scopes = &c05Matcher{Form: "exact", Values: []string{"read"}}
+			c.Tok.Scp = c05Strs{Form: "arr"}
+			c.Tok.Scope = c05Strs{Form: "str", Vals: []string{"write", "read"}}
+		}),
+		with(func(c *c05Case) {
+			c.Proto.Scopes = &c05Matcher{Form: "hierarchic", Values: []string{"foo.bar.baz"}}
+			c.Tok.Scope = c05Strs{Form: "str", Vals: []string{"x", "foo.bar"}}
+		}),
+		with(func(c *c05Case) {
+			c.Proto.Scopes = &c05Matcher{Form: "wildcard", Values: []string{"foo.bar.baz"}}
+			c.Tok.Scope = c05Strs{Form: "str", Vals: []string{"foo.*"}}
+		}),
+		with(func(c *c05Case) {
+			c.Proto.Scopes = &c05Matcher{Form: "wildcard", Values: []string{"foo."}}
+			c.Tok.Scope = c05Strs{Form: "str", Vals: []string{"foo.*"}}
+		}),
+		with(func(c *c05Case) { c.Proto.Audience = []string{"api"}; c.Tok.Aud = c05Strs{Form: "str"} }),
+		with(func(c *c05Case) {
+			c.Proto.Audience = []string{"api"}
+			c.Tok.Aud = c05Strs{Form: "str", Vals: []string{"web", "", "api"}}
+		}),
 		with(func(c *c05Case) { c.Cred = "none"; c.Tok = nil }),
 	}
 }
